@@ -81,7 +81,7 @@ UNIT = {
  'allowed_assumes': [],
  'items': {
   'struct PdfString': {'kind': 'decl', 'file': F, 'header': r'^pub struct PdfString$'},
-  'PdfString::serialize': {'kind': 'fn', 'file': F, 'container': r'^impl PdfString$', 'name': 'serialize', 'props': ['C04'],
+  'PdfString::serialize': {'kind': 'fn', 'file': F, 'container': r'^impl PdfString$', 'name': 'serialize', 'props': ['C04', 'C09', 'C10'],
      'attrs': ['#[verifier::loop_isolation(false)]'],
      'ensures': [
         ('string_spelling', 'r is Ok ==> (final(out)@ == old(out)@ + spell_hex(self.data@) || final(out)@ == old(out)@ + spell_lit(self.data@))'),
@@ -106,7 +106,7 @@ UNIT = {
   # a byte-set constant that serialize_name may refer to (none in the pinned text): extracted when exactly one exists
   'const bytes': {'kind': 'decl', 'file': F, 'header': BYTES_CONST_HEADER, 'optional': True,
      'rewrites': [{'rule': 'R2', 'regex': BYTES_CONST_ITEM, 'replace': _bytes_const}]},
-  'serialize_name': {'kind': 'fn', 'file': F, 'container': None, 'name': 'serialize_name', 'props': ['C04'],
+  'serialize_name': {'kind': 'fn', 'file': F, 'container': None, 'name': 'serialize_name', 'props': ['C04', 'C09', 'C10'],
      'attrs': ['#[verifier::loop_isolation(false)]'],
      'ensures': [
         ('name_spelling', 'r is Ok ==> final(out)@ == old(out)@ + spell_name(s@)'),
